@@ -1228,6 +1228,11 @@ func (self *LockManager) ProcessRecoverLockData(lock *Lock) {
 		return
 	}
 	recoverData, recoverValue := lock.data.recoverData, lock.data.recoverValue
+	if recoverData != nil && recoverData.GetData() == nil {
+		// the key had no value before the operation (only the marker an UNSET leaves): undoing the
+		// operation gives "no value" again, not the inverse operation applied to the new value
+		recoverData = nil
+	}
 	if recoverValue == nil && currentData.commandType >= protocol.LOCK_DATA_COMMAND_TYPE_INCR && currentData.commandType != protocol.LOCK_DATA_COMMAND_TYPE_EXECUTE && currentData.commandType != protocol.LOCK_DATA_COMMAND_TYPE_PIPELINE {
 		// saved by a PIPELINE (no per-operation undo value): restore the previous value as a whole
 		if recoverData == nil {
